@@ -115,6 +115,19 @@ inline MCmp mcmp_like(const C &c) {
 
 /// After an injected fault the sets must be consistent (checked by observe() and the ledgers); the models are
 /// re-read from them (basic guarantee: contents unspecified but valid) so that exploration continues from there.
+/// C09: after a failed merge the SOURCE is a container like any other: consistent size, every visible element alive and
+/// not moved-from
+template <class SetT>
+inline void chk_source_after_fault(const SetT &t, const char *nm) {
+  if (!faulted()) return;
+  long n = 0;
+  for (auto it = t.begin(); it != t.end() && n < 64; ++it, ++n) {
+    const char *why = nullptr;
+    if (!E::sane(*it, &why)) vf::fail("C09", "%s failed and left its source with element %ld: %s", nm, n, why);
+  }
+  if (n != (long)t.size()) vf::fail("C09", "%s failed and left its source with size %ld but %ld reachable elements", nm, (long)t.size(), n);
+}
+
 inline void fault_epilogue(World &w) {
   for (int x = 0; x < w.K; ++x) {
     S &s = w.slot[x].s();
@@ -436,6 +449,7 @@ inline void apply(World &w, const Op &op) {
         const bool tbig = (int)tm.size() > N;
         const std::vector<int> order = seq_of(*t);
         win([&] { SS.merge(*t); });
+        chk_source_after_fault(*t, nm);
         FCHK; unexpected();
         model_merge(m, tm, order);
         if (sorted_vals(*t) != sorted_model(tm)) vf::fail(PT(), "merge: the source keeps the wrong elements");
@@ -456,6 +470,7 @@ inline void apply(World &w, const Op &op) {
         std::vector<int> order;
         for (auto it = t.begin(); it != t.end(); ++it) order.push_back(E::val(*it));
         win([&] { SS.merge(t); });
+        chk_source_after_fault(t, nm);
         FCHK; unexpected();
         model_merge(m, tm, order);
         if (sorted_vals(t) != sorted_model(tm)) vf::fail(PT(), "merge(other type): the source keeps the wrong elements");
@@ -475,6 +490,7 @@ inline void apply(World &w, const Op &op) {
       std::vector<int> order;
       for (auto it = t.begin(); it != t.end(); ++it) order.push_back(E::val(*it));
       win([&] { SS.merge(t); });
+      chk_source_after_fault(t, nm);
       FCHK; unexpected();
       model_merge(m, tm, order);
       if (sorted_vals(t) != sorted_model(tm)) vf::fail(PT(), "merge(other comparator): the source keeps the wrong elements");
